@@ -39,22 +39,25 @@ Proof.
   apply IH; [exact Hl|]. rewrite Hr1, Hh1. rewrite Hh1 in Hr2. lia.
 Qed.
 
+(* one script per shape of parse_field arm; tried in turn so that the proof
+   survives new field kinds of a known shape in C05's schema language *)
+Ltac field_case Hl :=
+  solve
+   [ eapply sat_bind; [apply rd_sat|]; intros ? _;
+     first [ exact I
+           | match goal with |- sat (match ?x with _ => _ end) _ => destruct x; exact I end
+           | eapply sat_bind; [apply rd_sat|]; intros ? _; exact I ]
+   | eapply sat_bind; [apply decode_name_sat; exact Hl|]; intros ? _; exact I
+   | eapply sat_bind; [apply rd8_sat; exact Hl|]; intros ? _;
+     eapply sat_bind; [apply rd_sat|]; intros ? _;
+     first [ exact I | match goal with |- sat (if ?c then _ else _) _ => destruct c; exact I end ]
+   | eapply sat_bind; [apply parse_strs_sat; [exact Hl|lia]|]; intros ? _; exact I
+   | match goal with |- sat (if ?c then _ else _) _ => destruct c; [exact I|] end;
+     eapply sat_bind; [apply rd_sat|]; intros ? _; exact I ].
+
 Lemma parse_field_sat f m pos lim : lim <= mlen m ->
   sat (parse_field pname_dec f m pos lim) (fun _ => True).
-Proof.
-  intros Hl. destruct f; cbn [parse_field].
-  - eapply sat_bind; [apply rd_sat|]. intros r _. exact I.
-  - eapply sat_bind; [apply rd_sat|]. intros r _. exact I.
-  - eapply sat_bind; [apply decode_name_sat; exact Hl|]. intros r _. exact I.
-  - eapply sat_bind; [apply rd8_sat; exact Hl|]. intros h _.
-    eapply sat_bind; [apply rd_sat|]. intros r _. destruct (cs_ok chk (fst r)); exact I.
-  - eapply sat_bind; [apply parse_strs_sat; [exact Hl|lia]|]. intros r _. exact I.
-  - eapply sat_bind; [apply rd_sat|]. intros h _.
-    eapply sat_bind; [apply rd_sat|]. intros r _. exact I.
-  - destruct (lim - pos <? N.of_nat min); [exact I|].
-    eapply sat_bind; [apply rd_sat|]. intros r _. exact I.
-  - eapply sat_bind; [apply rd_sat|]. intros r _. destruct (rest_check k (fst r)); exact I.
-Qed.
+Proof. intros Hl. destruct f; cbn [parse_field]; field_case Hl. Qed.
 
 Lemma parse_fields_sat : forall s m pos lim, lim <= mlen m ->
   sat (parse_fields pname_dec s m pos lim) (fun _ => True).
